@@ -1,6 +1,233 @@
-//! C29 — not built yet.
-use vcommon::Args;
+//! C29 — interfaces that disable task spawning handle calls in arrival order; with spawning
+//! enabled every call still gets its reply.
 
-pub fn main(_args: &Args) -> i32 {
-    vcommon::machinery_failure("C29: check not built yet")
+use std::{
+    future::Future,
+    pin::Pin,
+    sync::{Arc, Mutex},
+    task::{Context, Poll},
+};
+
+use serde_json::json;
+use vcommon::{Args, Report};
+use zbus::connection::Builder;
+
+use crate::{
+    explore::ExecResult,
+    sched::{finish_model_checking, run_scenario, v, SchedPlan, Totals},
+    world::{parse_message, split_messages, Link, SockCfg, Step, World, GUID},
+};
+
+/// A harness-controlled suspension point: returns Pending once and wakes itself, so the
+/// scheduler may run any other task before the handler continues. No clock involved.
+struct YieldNow(bool);
+impl Future for YieldNow {
+    type Output = ();
+    fn poll(mut self: Pin<&mut Self>, cx: &mut Context<'_>) -> Poll<()> {
+        if self.0 {
+            Poll::Ready(())
+        } else {
+            self.0 = true;
+            cx.waker().wake_by_ref();
+            Poll::Pending
+        }
+    }
+}
+
+type Log = Arc<Mutex<Vec<String>>>;
+
+struct Serial(Log);
+#[zbus::interface(name = "a.b.Serial", spawn = false)]
+impl Serial {
+    async fn work(&self, id: u32, yields: u32) -> u32 {
+        self.0.lock().unwrap().push(format!("start {id}"));
+        for _ in 0..yields {
+            YieldNow(false).await;
+        }
+        self.0.lock().unwrap().push(format!("end {id}"));
+        id
+    }
+    async fn work_mut(&mut self, id: u32, yields: u32) -> u32 {
+        self.0.lock().unwrap().push(format!("start {id}"));
+        for _ in 0..yields {
+            YieldNow(false).await;
+        }
+        self.0.lock().unwrap().push(format!("end {id}"));
+        id
+    }
+}
+
+struct Spawning(Log);
+#[zbus::interface(name = "a.b.Spawning")]
+impl Spawning {
+    async fn work(&self, id: u32, yields: u32) -> u32 {
+        self.0.lock().unwrap().push(format!("start {id}"));
+        for _ in 0..yields {
+            YieldNow(false).await;
+        }
+        self.0.lock().unwrap().push(format!("end {id}"));
+        id
+    }
+    async fn work_mut(&mut self, id: u32, yields: u32) -> u32 {
+        self.0.lock().unwrap().push(format!("start {id}"));
+        for _ in 0..yields {
+            YieldNow(false).await;
+        }
+        self.0.lock().unwrap().push(format!("end {id}"));
+        id
+    }
+}
+
+#[derive(Clone, Copy, Debug)]
+struct Params {
+    spawn: bool,
+    /// yields of the three handlers
+    yields: [u32; 3],
+    /// which of the calls use the `&mut self` method
+    muts: [bool; 3],
+    /// deliver the burst in one read (true) or as three environment events (false)
+    burst: bool,
+}
+
+fn scenario(p: Params) -> ExecResult {
+    let mut w = World::new();
+    w.horizon = 300;
+    let link = Link::new();
+    let sock = link.end_a(SockCfg::default());
+    let log: Log = Default::default();
+    let l2 = log.clone();
+    let spawn = p.spawn;
+    let conn = w
+        .complete("build", async move {
+            let b = Builder::authenticated_socket(sock, GUID)
+                .unwrap()
+                .p2p()
+                .internal_executor(false);
+            let b = if spawn {
+                b.serve_at("/s", Spawning(l2)).unwrap()
+            } else {
+                b.serve_at("/s", Serial(l2)).unwrap()
+            };
+            b.build().await.unwrap()
+        })
+        .expect("build");
+    let iface = if p.spawn { "a.b.Spawning" } else { "a.b.Serial" };
+    let calls: Vec<zbus::Message> = (0..3)
+        .map(|i| {
+            zbus::Message::method_call("/s", if p.muts[i] { "WorkMut" } else { "Work" })
+                .unwrap()
+                .interface(iface)
+                .unwrap()
+                .build(&(i as u32, p.yields[i]))
+                .unwrap()
+        })
+        .collect();
+    let serials: Vec<_> = calls.iter().map(|c| c.primary_header().serial_num()).collect();
+    let mut next = 0;
+    if p.burst {
+        let all: Vec<u8> = calls.iter().flat_map(|c| c.data().bytes().to_vec()).collect();
+        link.b2a.push(&all, vec![]);
+        next = 3;
+    }
+    loop {
+        let env = (next < 3) as usize;
+        match w.step(env) {
+            Step::Ran(_) => {}
+            Step::Env(_) => {
+                link.b2a.push(calls[next].data().bytes(), vec![]);
+                next += 1;
+            }
+            _ => break,
+        }
+    }
+    let mut res = ExecResult {
+        capped: w.hit_horizon,
+        steps: w.steps,
+        ..Default::default()
+    };
+    let events = log.lock().unwrap().clone();
+    // replies
+    let out = link.a2b.written();
+    let (msgs, _) = split_messages(&out);
+    let mut replies = [0usize; 3];
+    for r in msgs {
+        if let Ok(m) = parse_message(&out[r]) {
+            for (i, s) in serials.iter().enumerate() {
+                if m.header().reply_serial() == Some(*s) {
+                    replies[i] += 1;
+                    if m.message_type() != zbus::message::Type::MethodReturn
+                        || m.body().deserialize::<u32>().ok() != Some(i as u32)
+                    {
+                        res.violations.push(v("reply-correct", format!("call {i} got a wrong reply: {m}")).feat("spawn", p.spawn));
+                    }
+                }
+            }
+        }
+    }
+    if !w.hit_horizon {
+        for i in 0..3 {
+            if replies[i] != 1 {
+                res.violations.push(
+                    v("every-call-replied-once", format!("call {i} got {} replies (spawn={}); handler events {events:?}; trace={:?}", replies[i], p.spawn, w.trace))
+                        .feat("spawn", p.spawn),
+                );
+            }
+        }
+        if !p.spawn {
+            // calls arrive in order 0,1,2: the handler intervals must be disjoint and in that order
+            let want: Vec<String> = (0..3).flat_map(|i| [format!("start {i}"), format!("end {i}")]).collect();
+            if events != want {
+                res.violations.push(
+                    v("one-after-another-in-arrival-order", format!("handlers of a spawn=false interface ran as {events:?}, expected {want:?}"))
+                        .feat("spawn", false),
+                );
+            }
+        }
+    }
+    res.log = events;
+    res.log.push(format!("replies={replies:?}"));
+    drop(conn);
+    res
+}
+
+pub fn main(args: &Args) -> i32 {
+    let report = Report::new("C29", args.tier, args.seed, "model_checking");
+    let totals = Mutex::new(Totals::default());
+    let quick = args.tier == vcommon::Tier::Quick;
+    let mut scenarios = vec![];
+    for (yn, yields) in [("y210", [2u32, 1, 0]), ("y111", [1, 1, 1]), ("y012", [0, 1, 2])] {
+        for (mn, muts) in [("ref", [false, false, false]), ("mixed", [true, false, true])] {
+            for burst in [true, false] {
+                for spawn in [false, true] {
+                    if !quick || (yn != "y012" || !burst) {
+                        scenarios.push((
+                            format!("{}-{yn}-{mn}-{}", if spawn { "spawn" } else { "nospawn" }, if burst { "burst" } else { "trickle" }),
+                            Params { spawn, yields, muts, burst },
+                        ));
+                    }
+                }
+            }
+        }
+    }
+    for (name, p) in scenarios {
+        let plan = SchedPlan {
+            bounds: if quick { vec![Some(4)] } else { vec![Some(6), None] },
+            max_execs: args.tier.pick(2_000_000, 40_000_000),
+            time_budget_s: args.tier.pick(120.0, 300.0),
+        };
+        run_scenario(
+            &report,
+            &totals,
+            &name,
+            json!({"spawn": p.spawn, "yields": p.yields, "muts": p.muts, "burst": p.burst}),
+            &plan,
+            move || scenario(p),
+        );
+    }
+    report.assume("handlers suspend at harness-controlled yield points (Pending + self-wake), never on a clock");
+    finish_model_checking(
+        &report,
+        &totals,
+        "3 calls (burst in one read, or one environment event each) to handlers yielding 0–2 times, &self and &mut self, spawn=false and spawn=true twins; all schedules up to the completed deviation bound",
+    )
 }
